@@ -15,7 +15,8 @@ ANCHOR_PREFIXES = (
     "dep3::fields::", "debian_copyright::License", "apt_sources::RepositoryType", "apt_sources::YesNoForce", "apt_sources::signature::Signature",
 )
 # free-text codecs whose agreement is not decidable in the symbolic string domain (regex / slicing)
-UNDECIDED = {"debian_control::vcs::ParsedVcs": "regex + byte slicing; free-text codec (DESIGN 4/C18 U)"}
+# handled by its own clause (check_parsedvcs_roundtrip: regex matching and byte slicing over symbolic strings)
+UNDECIDED = {"debian_control::vcs::ParsedVcs": "decided separately by C18/parsedvcs-* (rules/vcsmodel.py, rules/symregex.py)"}
 FLOOR_TYPES = 19
 FLOOR_ROUNDTRIPS = 61
 
@@ -188,10 +189,11 @@ def run(tier):
 
     check_vcs_field(F, C, mod)
     check_parsedvcs_printer(F, C, mod)
+    check_parsedvcs_roundtrip(F, C)
     check_origin(F, C, mod)
     C.extra["undecided_listed"] = C.analysed.get("undecided", [])
     C.assumptions += ["component atoms are valid values: non-empty, free of whitespace/syntax characters, different from every keyword and prefix",
-                      "ParsedVcs (regex based), parse_identity: free-text codecs, not decided (listed as undecided)"]
+                      "ParsedVcs: the regex crate implements leftmost-first matching of the pattern literal (rules/symregex.py re-implements that semantics for the pattern syntax used); parse_identity: free-text codec, not decided"]
     return C.finish("Each value codec's Display/ToString and FromStr bodies are interpreted over symbolic values "
                     "(literal pieces + opaque atoms); every enumeration variant and every Option-field combination of every record is "
                     "printed and parsed back; the parse result set must be exactly {Ok(v)}. Unknown keywords must yield Err for pure enumerations.")
@@ -212,6 +214,66 @@ def check_parsedvcs_printer(F, C, mod):
             want = "<location>" + (" -b <branch>" if has_b else "") + (" [<subpath>]" if has_s else "")
             C.ob("C18/parsedvcs-print", "branch %s, subpath %s" % ("present" if has_b else "absent", "present" if has_s else "absent"), len(renders) == 1 and got == [want],
                  "prints %s, expected %r (the location text unchanged)" % (got, want), F.fn(roundtrip.printer_of(mod, t))["sp"] if F.fn(roundtrip.printer_of(mod, t)) else "")
+
+
+def check_parsedvcs_roundtrip(F, C):
+    """ParsedVcs reader and printer back to back.  The reader's regex search, match offsets, byte slicing, find and
+    split_at are interpreted over symbolic strings (rules/vcsmodel.py): locations are whitespace-free texts, also ones
+    that contain the codec's own marker characters without the blanks that make them markers ('<a>[<x>]', '<a>-b<c>');
+    every combination of branch and subpath."""
+    import vcsmodel
+    t = "debian_control::vcs::ParsedVcs"
+    old = hirai.INT_BOUND
+    hirai.INT_BOUND = 16
+    try:
+        mod = vcsmodel.VcsMod(F)
+        key = mod.fromstr_impls.get(t)
+        if not C.ob("C18/anchor", t + " FromStr", key is not None and roundtrip.printer_of(mod, t) is not None, "parser / printer not found"):
+            return
+        sp = F.fns[key]["sp"]
+        A = lambda n, c="word": ("atom", n, c)
+        locs = [("<location>", [A("location", "url")]),
+                ("<a>[<x>]", [A("a", "url"), ("lit", "["), A("x"), ("lit", "]")]),
+                ("<a>-b<c>", [A("a", "url"), ("lit", "-b"), A("c", "url")]),
+                ("[<x>]<a>", [("lit", "["), A("x"), ("lit", "]"), A("a", "url")])]
+        n = 0
+        for lname, lp in locs:
+            for has_b in (False, True):
+                for has_s in (False, True):
+                    v = ("struct", t, (("repo_url", symstr.mk(lp)), ("branch", some(symstr.atom("branch", "word")) if has_b else none()), ("subpath", some(symstr.atom("subpath", "word")) if has_s else none())))
+                    name = "location %s, branch %s, subpath %s" % (lname, "present" if has_b else "absent", "present" if has_s else "absent")
+                    renders, _ = roundtrip.render_value(F, mod, v)
+                    okr = [normalize(r) for ctl, r in renders if ctl == OK]
+                    if not C.ob("C18/parsedvcs-decidable", name + " (print)", len(renders) == 1 and len(okr) == 1 and okr[0][0] == "sstr" and not has_unk(okr[0]), "printer outcomes %s" % [str(r)[:80] for _, r in renders], sp):
+                        continue
+                    text = okr[0]
+                    for pad, padded in (("", text), (" padded with blanks", symstr.mk((("lit", "  "),) + tuple(text[1]) + (("lit", " \t"),)))):
+                        parses, I2 = roundtrip.parse_value(F, mod, t, padded)
+                        outs = set()
+                        und = []
+                        for ctl, r in parses:
+                            if ctl != OK:
+                                outs.add(("ctl", ctl, str(r)[:80]))
+                                continue
+                            if has_unk(r):
+                                und.append(r)
+                            outs.add(normalize(r))
+                        if not C.ob("C18/parsedvcs-decidable", name + pad, not und and not I2.unknown_calls,
+                                    "reading %s is not decidable: %s; unmodelled calls %s" % (symstr.show(padded), [show_value(u)[:160] for u in und], dict(I2.unknown_calls)), sp):
+                            continue
+                        n += 1
+                        want = {normalize(("enum", OKV, (v,)))}
+                        C.ob("C18/parsedvcs-parse-print", name + pad, outs == want,
+                             "prints as %r; reading %r yields %s, expected exactly Ok(the value)" % (symstr.show(text), symstr.show(padded), sorted(show_value(o) for o in outs)), sp)
+                        # printing what was read gives the canonical text back
+                        for o in outs:
+                            if o[0] == "enum" and o[1] == OKV:
+                                rs, _ = roundtrip.render_value(F, mod, o[2][0])
+                                got = [symstr.show(normalize(r)) for ctl, r in rs if ctl == OK]
+                                C.ob("C18/parsedvcs-print-parse", name + pad, got == [symstr.show(text)], "reading %r and printing the result gives %s" % (symstr.show(padded), got), sp)
+        C.floor("C18/parsedvcs", n, 32, "ParsedVcs texts read")
+    finally:
+        hirai.INT_BOUND = old
 
 
 def check_vcs_field(F, C, mod):
